@@ -3,6 +3,7 @@ package main
 import (
 	"fmt"
 	"go/token"
+	"go/types"
 	"sort"
 	"strings"
 
@@ -13,7 +14,7 @@ func init() {
 	register(&propertyDef{
 		id:    "C20",
 		title: "the engine API classifies results and resolves files consistently",
-		rules: []ruleFunc{c20R1, c20R2, c20R3, c20R4, c20R5, c20R6, c20R7, c20R8},
+		rules: []ruleFunc{c20R1, c20R2, c20R3, c20R4, c20R5, c20R6, c20R7, c20R8, c20R9},
 		decided: "engineWorkflow.Run flags the result with OutputSchema()[id].Error() of the very id Execute returned, and every error return carries the flag true (R1); infer.OutputSchema derives the error flag from `outputID == \"error\"` only when no explicit schema was given and returns an explicit schema unchanged (R2); " +
 			"the exit-code table of the command-line tool: parse error 1, run error 3, error output 2, otherwise 0 (R3); file access in the engine is confined to loadfile.LoadContext, the readFile built-in and cmd/*, and relative names are joined with the absolute context directory (R4); " +
 			"RunWorkflow = Parse then Run on the same context and file name, the default workflow file name is workflow.yaml (R5). The declared output schema object itself reaches infer.OutputSchema (R7); parsing/preparing keeps no state between calls (R8 = C10.R5).",
@@ -542,4 +543,121 @@ func forEachFn(fns []*ssa.Function, f func(instrRef)) {
 		seen[g] = true
 		eachInstr(g, f)
 	}
+}
+
+// C20.R9 the names of sub-workflow files are used as written.
+func c20R9(c *Ctx) {
+	const rule = "C20.R9"
+	c.explain("C20.R9 the loop provider looks a sub-workflow's text up in the workflow context under the `workflow` string exactly as it is written in the step; the engine entry point therefore has to collect the files under that very string and read them relative to the context directory: in StepWorkflowPaths every key and every path stored is the step's `workflow` value itself (through assertions only, no call in between), and the map it returns reaches NewFileCacheUsingContext unchanged (no update of it on the way). Any normalisation or re-basing on one side only makes the engine entry point fail (or silently read another file) for workflows that direct preparation of the same texts accepts")
+	swp := c.Fn("engine.StepWorkflowPaths")
+	if swp == nil {
+		return
+	}
+	// pure: v is the `workflow` element of the step data, seen through assertions, extracts, phis and local copies only
+	var pure func(v ssa.Value, d int) bool
+	pure = func(v ssa.Value, d int) bool {
+		if d > 10 {
+			return false
+		}
+		switch x := v.(type) {
+		case *ssa.Lookup:
+			k, ok := constString(x.Index)
+			return ok && k == "workflow"
+		case *ssa.Extract:
+			return pure(x.Tuple, d+1)
+		case *ssa.TypeAssert:
+			return pure(x.X, d+1)
+		case *ssa.ChangeType:
+			return pure(x.X, d+1)
+		case *ssa.MakeInterface:
+			return pure(x.X, d+1)
+		case *ssa.Phi:
+			for _, e := range x.Edges {
+				if !pure(e, d+1) {
+					return false
+				}
+			}
+			return len(x.Edges) > 0
+		case *ssa.UnOp:
+			if al, ok := x.X.(*ssa.Alloc); ok && x.Op == token.MUL {
+				if sv := soleStore(al); sv != nil {
+					return pure(sv, d+1)
+				}
+			}
+		case *ssa.Parameter:
+			if arg, ok := paramBinding[x]; ok {
+				return pure(arg, d+1)
+			}
+		}
+		return false
+	}
+	n := 0
+	c.eachInstrLogical(swp, func(r instrRef) {
+		mu, ok := r.I.(*ssa.MapUpdate)
+		if !ok {
+			return
+		}
+		if _, isStr := mu.Key.Type().Underlying().(*types.Basic); !isStr {
+			return
+		}
+		if mt, ok := mu.Map.Type().Underlying().(*types.Map); !ok || mt.Elem().String() != "string" || mt.Key().String() != "string" {
+			return
+		}
+		n++
+		key := fmt.Sprintf("as-written@%s#%d", c.fnName(mu.Parent()), n)
+		c.verdict(pure(mu.Key, 0) && pure(mu.Value, 0), rule, key, c.instrPos(mu), "key and path are the step's `workflow` string as written",
+			fmt.Sprintf("the file name collected for a loop step is not the `workflow` string as written (key as written=%v, path as written=%v): the loop provider looks the file up under the string as written, so the names disagree for spellings that the transformation changes (./a.yaml, sub/../a.yaml, files referenced from a sub-directory)", pure(mu.Key, 0), pure(mu.Value, 0)))
+	})
+	c.minCount(rule, "file names collected by StepWorkflowPaths", n, 1)
+	// the collected map reaches the file cache constructor unchanged
+	m := 0
+	for _, fn := range c.RepoFns {
+		if c.excluded(fn) {
+			continue
+		}
+		eachInstr(fn, func(r instrRef) {
+			call, ok := r.I.(*ssa.Call)
+			if !ok || call.Common().StaticCallee() != swp {
+				return
+			}
+			if fn.Pkg != swp.Pkg {
+				return
+			}
+			m++
+			key := fmt.Sprintf("unchanged@%s#%d", c.fnName(fn), m)
+			var bad []string
+			for _, g := range c.logicalBody(fn) {
+				eachInstr(g, func(r2 instrRef) {
+					switch y := r2.I.(type) {
+					case *ssa.MapUpdate:
+						if sameVal(y.Map, call) || derivesFrom(y.Map, isValue(call)) {
+							bad = append(bad, "updated at "+c.instrPos(y))
+						}
+					case *ssa.Call:
+						if isBuiltinCall(y, "delete") && len(y.Call.Args) > 0 && (sameVal(y.Call.Args[0], call) || derivesFrom(y.Call.Args[0], isValue(call))) {
+							bad = append(bad, "entry deleted at "+c.instrPos(y))
+						}
+					}
+				})
+			}
+			// and it is that very map that is handed to the constructor
+			handed := false
+			for _, g := range c.logicalBody(fn) {
+				eachInstr(g, func(r2 instrRef) {
+					if c2, ok := r2.I.(*ssa.Call); ok && strings.HasSuffix(calleeName(c2.Common()), "loadfile.NewFileCacheUsingContext") && len(c2.Call.Args) == 2 {
+						if sameVal(c2.Call.Args[1], call) {
+							handed = true
+						} else if derivesFrom(c2.Call.Args[1], isValue(call)) {
+							handed = true
+						}
+					}
+				})
+			}
+			if !handed {
+				return // another use of the collected paths (not the cache construction)
+			}
+			c.verdict(len(bad) == 0, rule, key, c.instrPos(call), "the collected names reach NewFileCacheUsingContext unchanged", "the collected file names are changed before the file cache is built ("+strings.Join(bad, "; ")+"): the files are then read from, or stored under, names other than the ones the loop provider looks up")
+		})
+	}
+	c.minCount(rule, "calls of StepWorkflowPaths that feed the file cache", m, 1)
 }
